@@ -567,18 +567,22 @@ pub fn run_c20_agent(cfg: &Cfg) -> i32 {
     let rt = rt();
     let irr = Server::start(crate::c04::simple_db(2), Faults::default()).expect("irrd");
     let dir = crate::peers::fixtures().join("pki");
-    let public: Vec<Vec<u8>> = ["ca.crt", "other-ca.crt", "server.crt", "client.crt", "client-rsa.crt"].iter().map(|c| secrets::pem_der(&std::fs::read(dir.join(c)).unwrap_or_default())).collect();
+    let public: Vec<Vec<u8>> = crate::peers::PUBLIC_CERTS.iter().map(|c| secrets::pem_der(&std::fs::read(dir.join(c)).unwrap_or_default())).collect();
     let directives = ["", "trace", "debug", "netconf=trace", "bgpfu_junos_agent=trace,rustls=trace,tokio_rustls=trace", "info,netconf::transport=trace"];
-    let outcomes = ["success", "untrusted-ca", "paths-swapped", "peer-drops", "cert-bundle-with-key", "ca-bundle-with-key", "key-file-with-trailing-copy"];
+    let outcomes = ["success", "untrusted-ca", "paths-swapped", "peer-drops", "cert-bundle-with-key", "ca-bundle-with-key", "key-file-with-trailing-copy", "unusable-key"];
     let keys = [("client.key", "client.crt"), ("client.sec1.key", "client.crt"), ("client-rsa.key", "client-rsa.crt"), ("client-rsa.pkcs1.key", "client-rsa.crt")];
-    let n = cfg.count(35, 420);
+    let n = cfg.count(56, 560);
     for i in 0..n {
         let idx = cfg.case_index(i);
         let mut r = cfg.prng("C20-agent", idx);
         let outcome = outcomes[(i as usize) % outcomes.len()];
         let directive = directives[r.below(directives.len())];
         let verbosity = *r.pick(&["-vvvv", "-vvv", "-vv", "-q"]);
-        let (key, cert) = keys[r.below(keys.len())];
+        let (mut key, mut cert) = keys[r.below(keys.len())];
+        if outcome == "unusable-key" {
+            // key types / sizes the TLS backend refuses (or may refuse), and a damaged key
+            (key, cert) = crate::peers::UNUSUAL_KEYS[(idx as usize / outcomes.len()) % crate::peers::UNUSUAL_KEYS.len()];
+        }
         let to_file = r.chance(1, 3);
         let logfile = std::env::temp_dir().join(format!("vh-agent-log-{}-{idx}.log", std::process::id()));
         let managed = vec![("fltr-0".to_string(), "AS65000".to_string())];
@@ -793,6 +797,10 @@ pub fn run_c19(cfg: &Cfg) -> i32 {
         Sc { period: 60, outcomes: vec![true, true, true, true], signals: vec![], end: 150.0 + 60.0 * 3.0 + 40.0, name: "p60:S(slow,150s)SSS", slow: vec![(0, 150.0)] },
         Sc { period: 300, outcomes: vec![true, true], signals: vec![(100.0, libc::SIGHUP), (250.0, libc::SIGTERM)], end: 400.0, name: "p300:S+SIGHUP@100+SIGTERM@250", slow: vec![] },
         Sc { period: 0, outcomes: vec![true], signals: vec![], end: 200.0, name: "p0:one-shot", slow: vec![] },
+        // signals that arrive while the daemon is waiting out a back-off (not the normal period)
+        Sc { period: 300, outcomes: vec![false, false], signals: vec![(30.0, libc::SIGHUP), (100.0, libc::SIGINT)], end: 300.0, name: "p300:F+SIGHUP@30(in backoff)+SIGINT@100(in backoff)", slow: vec![] },
+        Sc { period: 300, outcomes: vec![false], signals: vec![(10.0, libc::SIGTERM)], end: 200.0, name: "p300:F+SIGTERM@10(in backoff)", slow: vec![] },
+        Sc { period: 600, outcomes: vec![false, false, true], signals: vec![(60.0 + 50.0, libc::SIGHUP), (60.0 + 50.0 + 200.0, libc::SIGTERM)], end: 600.0, name: "p600:FF+SIGHUP@110(in 2nd backoff)S+SIGTERM@310(in period)", slow: vec![] },
     ];
     if cfg.thorough() {
         for (period, name) in [(30u64, "p30:FFFSF"), (60, "p60:FFFSF"), (100, "p100:FFFFSF"), (150, "p150:FFFFF"), (1000, "p1000:FFFFFFF"), (3600, "p3600:FFFFFFFFF")] {
@@ -811,10 +819,8 @@ pub fn run_c19(cfg: &Cfg) -> i32 {
             }
             scs.push(Sc { period, outcomes, signals: vec![], end: end + 30.0, name, slow: vec![] });
         }
-        scs.push(Sc { period: 300, outcomes: vec![false, false], signals: vec![(30.0, libc::SIGHUP), (100.0, libc::SIGINT)], end: 300.0, name: "p300:F+SIGHUP@30(in backoff)+SIGINT@100", slow: vec![] });
         scs.push(Sc { period: 120, outcomes: vec![true, false, true], signals: vec![(50.0, libc::SIGHUP), (60.0, libc::SIGHUP)], end: 400.0, name: "p120:S+2xSIGHUP", slow: vec![] });
         scs.push(Sc { period: 100, outcomes: vec![true, false, true, true], signals: vec![], end: 260.0 + 60.0 + 100.0 + 100.0 + 40.0, name: "p100:S(slow,260s)FSS", slow: vec![(0, 260.0)] });
-        scs.push(Sc { period: 300, outcomes: vec![false], signals: vec![(10.0, libc::SIGTERM)], end: 200.0, name: "p300:F+SIGTERM@10", slow: vec![] });
     }
     let scs: Vec<Sc> = scs.into_iter().enumerate().filter(|(i, _)| (*i as u64) % cfg.shards == cfg.shard).map(|(_, s)| s).collect();
     // run the scenarios 4 at a time (each has its own runtime, fake Junos, fake IRRd and daemon)
